@@ -85,7 +85,7 @@ var ctlKinds = []struct {
 }{{"none", 0, 0}, {"ping0", wsref.OpPing, 0}, {"ping5", wsref.OpPing, 5}, {"pong0", wsref.OpPong, 0}, {"pong5", wsref.OpPong, 5}}
 
 // genSession draws a session from the explorer.
-func genSession(x *engine.X, maxMsgs int, lengths []int) *wsSession {
+func genSession(x *engine.X, maxMsgs int, lengths []int, later ...int) *wsSession {
 	s := &wsSession{}
 	nmsg := 1 + x.Deviate(maxMsgs, "extra messages")
 	ctlSeed := 0
@@ -110,6 +110,9 @@ func genSession(x *engine.X, maxMsgs int, lengths []int) *wsSession {
 			n = lengths[x.Pick(len(lengths), "payload length class")]
 		} else {
 			short := []int{0, 1, 126, 65536}
+			if len(later) > 0 {
+				short = later
+			}
 			n = short[x.Pick(len(short), "payload length of later message")]
 		}
 		p := payloadBytes(m+1, n)
